@@ -9,7 +9,9 @@ THEOREMS = ["C03_work_conserving", "C03_idle_reducer_sound", "C03_refuted_timer"
             "C03_work_conserving_runner", "C03_rewind_exact", "C03_in_progress_is_live", "C03_full_limit_live",
             "C03_idle_check_exact", "C03_idle_runner_sound", "C03_idle_exceptions_exact", "C03_truly_idle_is_quiescent",
             # the anchored source as found on this run (harness/gen/idle_shape.py -> WfModel/GenIdleShape.lean)
-            "C03_check_idle_is_source", "C03_refill_guard_is_source", "C03_source_shape"]
+            "C03_check_idle_is_source", "C03_refill_guard_is_source", "C03_source_shape",
+            # the server side (IdleReleaseDecorator, model M7): what is treated as idle, when a release happens
+            "C03_server_idle_mark_origin", "C03_server_release_needs_mark", "C03_server_release_reads_mark"]
 LEAN_TARGETS = ["WfProps.C03"]
 EXPLANATION = (
     "Work conservation is proved for every tick history (queue non-empty => all num_workers slots busy, until a tick "
@@ -31,9 +33,21 @@ EXPLANATION = (
     "the TickIdleCheck / CommandScheduleIdleCheck branches, the buffer-drain loop, the rewind's shape and the server's idle marker "
     "(WorkflowIdleEvent only; release needs idle_since + idle_timeout elapsed + active; a send to an active run withdraws the mark) are "
     "re-extracted from the sources on every run and proved to be what the model does (C03_check_idle_is_source, C03_refill_guard_is_source, "
-    "C03_source_shape)."
+    "C03_source_shape). Server side on model M7 (WfModel/Lifecycle.lean, tied to the real stack by C26/C36), single-step facts for every state and "
+    "action: idle_since is set only by the engine's idle announcement made with no reducer-visible work and cleared only by a send_event "
+    "(C03_server_idle_mark_origin); the run leaves the active set only in the decision step of a release task that read, under the lock, a mark at "
+    "least idle_timeout old (C03_server_release_needs_mark, C03_server_release_reads_mark). The same four clauses are monitored on the real "
+    "in-process stack (IdleReleaseDecorator over PersistenceDecorator over BasicRuntime) on generated idle workflows."
 )
+TRUSTED_EXTRA = [
+    "harness/gen/idle_shape.py (AST extraction / translation of _check_idle_state, the refill-loop conditions, the idle-check branches and the server's idle marker into WfModel/GenIdleShape.lean)",
+    "harness/gen/lifecycle.py (shapes of idle_release_runtime.py in WfModel/GenLifecycle*.lean, shared with C26 / C36)",
+    "harness/server/{stack,idle}.py: observation wrappers of the in-process server stack (store subclass, lock/spawn proxies, BasicRuntime adapter wrappers), the virtual datetime (shared with C26 / C36)",
+    "harness/engine/live.py: the recording of _ControlLoopRunner internals (tick_buffer, scheduled_wakeups, _pending_workers, _task_keys, _idle_check_pending, receive_queue) at every reducer call",
+]
 ASSUMPTIONS = suite.ENGINE_ASSUMPTIONS + [
+    "server side: the correspondence of model M7 with the real IdleReleaseDecorator stack is C26's / C36's (not repeated here); this check runs the real stack only for its monitors; "
+    "DBOSIdleReleaseDecorator is not covered by C03 (C26 / C36, partial)",
     "reading: a pending wait_for_event timeout is not counted as pending work (the statement lists queued, running and scheduled-retry work)",
 ]
 
